@@ -591,7 +591,7 @@ def gen_param(rng, x, t, k, variable=0.75):
     return {"c": v}
 
 
-def gen_gate(rng, x, t, d, variable=0.75):
+def gen_gate(rng, x, t, d, variable=0.75, real_blocks=False):
     from vf.gen import matrices as M
 
     if t in GATE_PARAMS:
@@ -618,7 +618,7 @@ def gen_gate(rng, x, t, d, variable=0.75):
     if t == "GaussianTransform":
         n = int(rng.integers(1, min(d, 2) + 1))
         m = [int(v) for v in rng.choice(d, size=n, replace=False)]
-        if rng.random() < 0.5:
+        if not real_blocks:
             U1, U2 = M.haar_unitary(rng, n), M.haar_unitary(rng, n)
         else:  # real blocks
             U1, U2 = M.haar_orthogonal(rng, n).astype(complex), M.haar_orthogonal(rng, n).astype(complex)
@@ -693,7 +693,7 @@ def gen_outputs(rng, pq, doc):
 
 
 def gen_circuit(rng, pq, flavour, dc=None, max_params=10):
-    """flavour: plain | batch | gaussian | interferometer."""
+    """flavour: plain | batch | interferometer | gaussian (complex blocks) | gaussian-real."""
     while True:
         if dc is None:
             d = int(rng.choice([1, 2, 2, 3]))
@@ -722,15 +722,15 @@ def gen_circuit(rng, pq, flavour, dc=None, max_params=10):
             gates.append(gen_gate(rng, x, str(rng.choice(pool)), d))
         if flavour == "interferometer" and not any(g["t"] == "Interferometer" for g in gates):
             gates.insert(int(rng.integers(1, len(gates) + 1)), gen_gate(rng, x, "Interferometer", d))
-        if flavour == "gaussian":
-            gates.insert(int(rng.integers(0, len(gates) + 1)), gen_gate(rng, x, "GaussianTransform", d))
+        if flavour.startswith("gaussian"):
+            gates.insert(int(rng.integers(0, len(gates) + 1)), gen_gate(rng, x, "GaussianTransform", d, real_blocks=flavour == "gaussian-real"))
         if flavour == "batch" and rng.random() < 0.6:
             nb = len(prep["subs"])
             subs = [[gen_gate(rng, x, str(rng.choice(pool[:4] + (["Beamsplitter"] if d > 1 else []))), d, variable=0.5)] for _ in range(nb)]
             gates.insert(int(rng.integers(0, len(gates) + 1)), {"t": "BatchApply", "subs": subs})
         if 1 <= len(x) <= max_params:
             break
-    doc = {"d": d, "cutoff": cutoff, "prep": prep, "gates": gates, "x0": x, "flavour": flavour, "validate": flavour != "gaussian"}
+    doc = {"d": d, "cutoff": cutoff, "prep": prep, "gates": gates, "x0": x, "flavour": flavour, "validate": not flavour.startswith("gaussian")}
     return gen_outputs(rng, pq, doc)
 
 
@@ -796,7 +796,7 @@ def run_circuit_case(ctx, pq, doc, paths, connectors=None):
         vdev = float(np.max(np.abs(np.asarray(vals, dtype=float) - f0))) if np.asarray(vals).shape == f0.shape else float("inf")
         if not (vdev <= VALUE_TOL):
             ctx.c["forward_value_mismatches"] = ctx.c.get("forward_value_mismatches", 0) + 1
-            what = "GaussianTransform" if doc["flavour"] == "gaussian" else "circuit"
+            what = "GaussianTransform" if doc["flavour"].startswith("gaussian") else "circuit"
             ctx.viol("forward-value-differs:%s:%s" % (backend, what),
                      "%s: forward outputs differ from the NumPy simulation by %.3e (> %.0e) before any differentiation; gates %s" % (
                          path, vdev, VALUE_TOL, [g["t"] for g in doc["gates"]]), case)
@@ -873,7 +873,7 @@ def shard_circuits(ctx, spec, pq, rng):
         tf = get_tf()
         convention_selfcheck_tf(ctx)
         connectors = {"eager": pq.TensorflowConnector(), "function": pq.TensorflowConnector(decorate_with=tf.function)}
-        if "gaussian" in spec["flavours"]:
+        if any(f.startswith("gaussian") for f in spec["flavours"]):
             probe_gaussian_validation(ctx, pq, tf)
     else:
         convention_selfcheck_jax(ctx)
@@ -1282,7 +1282,7 @@ def plan(tier, seed):
     # TensorFlow, eager custom-gradient path
     add("tf-eager-0", kind="circuits", backend="tf", modes=["eager-gradient", "eager-jacobian"], flavours=["plain", "interferometer", "plain", "batch"],
         count=int(40 * b), min_count=10, budget=75 * b, env=TF_ENV, weight=3)
-    add("tf-eager-1", kind="circuits", backend="tf", modes=["eager-gradient", "eager-jacobian"], flavours=["batch", "plain", "interferometer", "gaussian"],
+    add("tf-eager-1", kind="circuits", backend="tf", modes=["eager-gradient", "eager-jacobian"], flavours=["batch", "gaussian", "plain", "gaussian-real", "interferometer"],
         count=int(40 * b), min_count=10, budget=75 * b, env=TF_ENV, weight=3)
     # TensorFlow, graph path (each new (d, cutoff, modes) retraces: few shapes per shard)
     add("tf-function-0", kind="circuits", backend="tf", modes=["function-gradient", "function-jacobian"], rotate_modes=True,
@@ -1290,7 +1290,7 @@ def plan(tier, seed):
     add("tf-function-1", kind="circuits", backend="tf", modes=["function-gradient", "outer-function", "function-jacobian"], rotate_modes=True,
         flavours=["plain", "batch", "interferometer"], dc=[[2, 4], [3, 4]], count=int(14 * b), min_count=5, budget=80 * b, env=TF_ENV, weight=3, max_params=7)
     # JAX (eager JAX compiles one kernel per primitive and shape: two (d, cutoff) pairs per shard)
-    add("jax-grad-0", kind="circuits", backend="jax", modes=["grad"], flavours=["plain", "interferometer", "plain", "gaussian"],
+    add("jax-grad-0", kind="circuits", backend="jax", modes=["grad"], flavours=["plain", "interferometer", "plain", "gaussian-real"],
         dc=[[1, 6], [2, 5]], count=int(30 * b), min_count=4, budget=80 * b, env=JAX_ENV)
     add("jax-grad-1", kind="circuits", backend="jax", modes=["grad"], flavours=["interferometer", "plain", "batch", "plain"],
         dc=[[2, 4], [3, 4]], count=int(30 * b), min_count=4, budget=80 * b, env=JAX_ENV)
@@ -1302,7 +1302,7 @@ def plan(tier, seed):
     add("perm-0", kind="perm", count=int(60 * b), min_count=15, budget=45 * b, batch_reps=int(2 * b), passive=int(6 * b), env=PERM_ENV)
     add("perm-1", kind="perm", count=int(60 * b), min_count=15, budget=45 * b, batch_reps=int(2 * b), passive=int(6 * b), env=PERM_ENV)
     if not q:
-        add("tf-eager-2", kind="circuits", backend="tf", modes=["eager-gradient", "eager-jacobian"], flavours=["interferometer", "gaussian", "batch", "plain"],
+        add("tf-eager-2", kind="circuits", backend="tf", modes=["eager-gradient", "eager-jacobian"], flavours=["interferometer", "gaussian-real", "batch", "plain", "gaussian"],
             count=int(40 * b), budget=75 * b, env=TF_ENV, weight=3)
         add("jax-jacobian-1", kind="circuits", backend="jax", modes=["jacrev", "jacfwd"], flavours=["batch", "plain", "interferometer"],
             dc=[[3, 6], [2, 7]], count=int(30 * b), budget=80 * b, env=JAX_ENV)
